@@ -5,11 +5,13 @@ package c16
 import (
 	"encoding/json"
 	"fmt"
+	"math/big"
 	"os"
 	"os/exec"
 	"reflect"
 	"slices"
 	"strings"
+	"time"
 	"verif/internal/envrun"
 
 	"github.com/google/jsonschema-go/jsonschema"
@@ -64,6 +66,8 @@ var overrideTypes = map[string]reflect.Type{
 	"int":         reflect.TypeOf(0),
 	"Base":        reflect.TypeOf(gen.Base{}),
 	"Mid":         reflect.TypeOf(gen.Mid{}),
+	"Time":        reflect.TypeOf(time.Time{}),
+	"BigInt":      reflect.TypeOf(big.Int{}),
 }
 
 func options() []optCase {
@@ -78,6 +82,35 @@ func options() []optCase {
 				},
 				marks: map[reflect.Type]string{t: "MARK-" + n}})
 		}
+	}
+	// overrides written with the Types list (spare capacity: an append into the caller's array would
+	// show), and overrides of types that have a default translation
+	for _, form := range []struct {
+		name  string
+		types []string
+	}{{"Types=[object,string]", []string{"object", "string"}}, {"Types=[null,object]", []string{"null", "object"}}, {"Types=[object]", []string{"object"}}} {
+		form := form
+		for _, n := range []string{"NamedStruct", "Inner"} {
+			n := n
+			t := overrideTypes[n]
+			out = append(out, optCase{name: fmt.Sprintf("TypeSchemas[%s] %s", n, form.name),
+				ts: func() map[reflect.Type]*jsonschema.Schema {
+					m := mark("MARK-" + n)
+					m.Type = ""
+					m.Types = append(make([]string, 0, 8), form.types...)
+					return map[reflect.Type]*jsonschema.Schema{t: m}
+				},
+				marks: map[reflect.Type]string{t: "MARK-" + n}})
+		}
+	}
+	for _, n := range []string{"Time", "BigInt"} {
+		n := n
+		t := overrideTypes[n]
+		out = append(out, optCase{name: fmt.Sprintf("TypeSchemas[%s]", n),
+			ts: func() map[reflect.Type]*jsonschema.Schema {
+				return map[reflect.Type]*jsonschema.Schema{t: mark("MARK-" + n)}
+			},
+			marks: map[reflect.Type]string{t: "MARK-" + n}})
 	}
 	shared := func() map[reflect.Type]*jsonschema.Schema {
 		s := mark("MARK-shared")
@@ -167,7 +200,61 @@ func usesEmbeddedOverride(t reflect.Type, marks map[reflect.Type]string, seen ma
 
 // shape checks clauses (4)-(6) of the property by a parallel walk of the type
 // and the inferred schema.
+// supported reports whether For can translate t at all (with IgnoreInvalidTypes a field of an
+// unsupported type is dropped; a struct survives without its unsupported fields).
+func supported(t reflect.Type, seen map[reflect.Type]bool) bool {
+	for t.Kind() == reflect.Pointer {
+		t = t.Elem()
+	}
+	if gen.IsMarshalerType(t) {
+		return true
+	}
+	switch t.Kind() {
+	case reflect.Func, reflect.Chan, reflect.Complex64, reflect.Complex128, reflect.UnsafePointer:
+		return false
+	case reflect.Slice, reflect.Array:
+		return supported(t.Elem(), seen)
+	case reflect.Map:
+		return t.Key().Kind() == reflect.String && supported(t.Elem(), seen)
+	}
+	return true
+}
+
+// embedsOverride reports whether struct type t has an untagged anonymous field of an overridden type.
+func embedsOverride(t reflect.Type, marks map[reflect.Type]string) bool {
+	if len(marks) == 0 || t.Kind() != reflect.Struct {
+		return false
+	}
+	for i := 0; i < t.NumField(); i++ {
+		f := t.Field(i)
+		ft := f.Type
+		for ft.Kind() == reflect.Pointer {
+			ft = ft.Elem()
+		}
+		if f.Anonymous {
+			if _, ok := marks[ft]; ok {
+				return true
+			}
+			if ft.Kind() == reflect.Struct && f.Tag.Get("json") == "" && embedsOverride(ft, marks) {
+				return true
+			}
+		}
+	}
+	return false
+}
+
+type shapeCtx struct {
+	nullMode bool
+	marks    map[reflect.Type]string
+	ignore   bool
+}
+
 func shape(t reflect.Type, s *jsonschema.Schema, path string, nullMode bool, report func(class, path, msg string), seen map[reflect.Type]bool) {
+	shapeX(t, s, path, shapeCtx{nullMode: nullMode}, report, seen)
+}
+
+func shapeX(t reflect.Type, s *jsonschema.Schema, path string, cx shapeCtx, report func(class, path, msg string), seen map[reflect.Type]bool) {
+	nullMode := cx.nullMode
 	if s == nil {
 		report("missing schema", path, t.String())
 		return
@@ -177,12 +264,32 @@ func shape(t reflect.Type, s *jsonschema.Schema, path string, nullMode bool, rep
 		ptr = true
 		t = t.Elem()
 	}
-	if gen.IsMarshalerType(t) {
-		return
-	}
 	types := s.Types
 	if s.Type != "" {
 		types = []string{s.Type}
+	}
+	if m, ok := cx.marks[t]; ok {
+		// an overridden type: the supplied schema, plus null exactly when reached through a pointer
+		if _, has := s.Properties["zz_"+m]; !has {
+			report("override substitution", path, fmt.Sprintf("type %s is overridden but its position holds %v", t, keysOf(s.Properties)))
+			return
+		}
+		nulls := 0
+		for _, x := range types {
+			if x == "null" {
+				nulls++
+			}
+		}
+		if !slices.Contains(types, "object") || nulls > 1 {
+			report("override types", path, fmt.Sprintf("overridden type %s: schema types %v", t, types))
+		}
+		return
+	}
+	if gen.IsMarshalerType(t) {
+		if !slices.Contains(types, "string") {
+			report("marshaler type", path, fmt.Sprintf("type %s: schema types %v", t, types))
+		}
+		return
 	}
 	hasNull := slices.Contains(types, "null")
 	if t.Kind() != reflect.Interface {
@@ -198,12 +305,22 @@ func shape(t reflect.Type, s *jsonschema.Schema, path string, nullMode bool, rep
 	defer delete(seen, t)
 	switch t.Kind() {
 	case reflect.Slice, reflect.Array:
-		shape(t.Elem(), s.Items, path+"/items", nullMode, report, seen)
+		shapeX(t.Elem(), s.Items, path+"/items", cx, report, seen)
 	case reflect.Map:
-		shape(t.Elem(), s.AdditionalProperties, path+"/additionalProperties", nullMode, report, seen)
+		shapeX(t.Elem(), s.AdditionalProperties, path+"/additionalProperties", cx, report, seen)
 	case reflect.Struct:
-		fs := gen.JSONFields(t)
+		if embedsOverride(t, cx.marks) {
+			return // judged by outside(): the golden tests pin sorted order and non-required there
+		}
+		all := gen.JSONFields(t)
+		var fs []gen.JSONField
 		var names, req []string
+		for _, f := range all {
+			if cx.ignore && !supported(f.Type, nil) {
+				continue // dropped with IgnoreInvalidTypes
+			}
+			fs = append(fs, f)
+		}
 		for _, f := range fs {
 			names = append(names, f.Name)
 			if !f.OmitEmpty && !f.OmitZero {
@@ -235,7 +352,7 @@ func shape(t reflect.Type, s *jsonschema.Schema, path string, nullMode bool, rep
 			if f.Embedded {
 				continue
 			}
-			shape(f.Type, s.Properties[f.Name], path+"/properties/"+f.Name, nullMode, report, seen)
+			shapeX(f.Type, s.Properties[f.Name], path+"/properties/"+f.Name, cx, report, seen)
 		}
 	}
 }
@@ -281,7 +398,7 @@ func Run(r *ev.Run) {
 		ts = append(gen.Composites(3), gen.Catalog()...)
 	}
 	opts := options()
-	r.Rule("G-type (C04's types plus recursive and unsupported-kind types) x options {nil, IgnoreInvalidTypes, TypeSchemas overriding each of 6 named types (incl. embedded ones) with a marked schema, with/without IgnoreInvalidTypes, one *Schema shared by three entries} x JSONSCHEMAGODEBUG in {unset, typeschemasnull=1, typeschemasnull=0} (separate worker processes). Per call: (1) two calls give deep-equal trees and identical bytes; (2) the Schema pointer sets of both results and of the supplied TypeSchemas are pairwise disjoint; (3) Resolve accepts the result; (4) properties = the fields encoding/json emits (independent re-implementation of its field selection, itself checked against json.Marshal of a fully populated value), PropertyOrder = field order; (5) required = fields with neither omitempty nor omitzero; (6) pointer-ness (and slices) add null; (7) the override mark appears once per occurrence; (8) recursive types: error; (9) unsupported kinds: error, or dropped with IgnoreInvalidTypes. Non-trivial = every (type, options) call")
+	r.Rule("G-type (C04's types plus recursive and unsupported-kind types) x options {nil, IgnoreInvalidTypes, TypeSchemas overriding each of 6 named types (incl. embedded ones) with a marked schema, with/without IgnoreInvalidTypes, the same with the override written as a Types list (3 forms, spare capacity), overrides of time.Time and big.Int, one *Schema shared by three entries} x JSONSCHEMAGODEBUG in {unset, typeschemasnull=1, typeschemasnull=0} (separate worker processes). Per call: (1) two calls give deep-equal trees and identical bytes; (2) the Schema pointer sets of both results and of the supplied TypeSchemas are pairwise disjoint; (3) Resolve accepts the result; (4) properties = the fields encoding/json emits (independent re-implementation of its field selection, itself checked against json.Marshal of a fully populated value), PropertyOrder = field order; (5) required = fields with neither omitempty nor omitzero; (6) pointer-ness (and slices) add null; (7) the override mark appears once per occurrence, at exactly the positions of the overridden type, with null added exactly once for pointer uses; clauses 4-6 are checked under every option set (with IgnoreInvalidTypes: minus the fields of unsupported type); (8) recursive types: error; (9) unsupported kinds: error, or dropped with IgnoreInvalidTypes. (10) the generic For[T] agrees with ForType on 14 types x every option set, and options never linger into a later call. Non-trivial = every (type, options) call")
 	r.Assume("encoding/json is the oracle for the field set; the independent field-selection model must reproduce json.Marshal's keys on every type (else harness error)",
 		"where an embedded struct type is overridden through TypeSchemas the golden tests pin sorted order and non-required: clauses 4-5 are skipped for such structs")
 	r.Set("types", len(ts))
@@ -410,16 +527,27 @@ func Run(r *ev.Run) {
 			if usesEmbeddedOverride(t.Type, o.marks, map[reflect.Type]bool{}) {
 				outside(t.Type, s1, o.marks, "", func(path, msg string) { fail("property dropped next to an embedded override", path+": "+msg) }, map[reflect.Type]bool{})
 			}
-			return // clauses 4-6 are about the default translation
+			// spare capacity of a supplied Types list must stay untouched
+			for _, x := range o1.TypeSchemas {
+				if cap(x.Types) > len(x.Types) {
+					for _, extra := range x.Types[len(x.Types):cap(x.Types)] {
+						if extra != "" {
+							fail("TypeSchemas entry modified", "written behind the end of its Types list: "+extra)
+						}
+					}
+				}
+			}
 		}
-		if o.ignore && t.Unsupported {
-			return
+		if !supported(t.Type, nil) {
+			return // dropped as a whole (s1 == nil was handled above) or an error
 		}
-		shape(t.Type, s1, "", nullMode, func(class, path, msg string) { fail(class, path+": "+msg) }, map[reflect.Type]bool{})
+		shapeX(t.Type, s1, "", shapeCtx{nullMode: nullMode, marks: o.marks, ignore: o.ignore}, func(class, path, msg string) { fail(class, path+": "+msg) }, map[reflect.Type]bool{})
 		if idx%4001 == 0 {
 			r.Sample(map[string]any{"call": key, "schema": string(b1)})
 		}
 	})
+	// the generic entry point must agree with ForType on result and error
+	genericAgree(r)
 	// self-check of the field-selection model against json.Marshal
 	for _, t := range ts {
 		tt := t.Type
@@ -442,6 +570,63 @@ func Run(r *ev.Run) {
 	if r.OnlyKey == "" || true {
 		envrun.Explore(r, "ENV", "c16env", "env", 16)
 	}
+}
+
+func genericOne[T any](r *ev.Run, name string, opts []optCase) {
+	for _, o := range opts {
+		mk := func() *jsonschema.ForOptions {
+			fo := &jsonschema.ForOptions{IgnoreInvalidTypes: o.ignore}
+			if o.ts != nil {
+				fo.TypeSchemas = o.ts()
+			}
+			return fo
+		}
+		key := "For[" + name + "] vs ForType, " + o.name
+		if r.OnlyKey != "" && r.OnlyKey != key {
+			continue
+		}
+		var a, b, c *jsonschema.Schema
+		var ea, eb, ec error
+		if p := par.Call(func() {
+			a, ea = jsonschema.For[T](mk())
+			b, eb = jsonschema.ForType(reflect.TypeFor[T](), mk())
+			c, ec = jsonschema.For[T](nil) // the options of the first call must not linger
+		}); p != "" {
+			r.Fail(key, map[string]any{"class": "panic", "panic": p})
+			continue
+		}
+		r.Eval(1)
+		r.NontrivialN(1)
+		ja, _ := json.Marshal(a)
+		jb, _ := json.Marshal(b)
+		if (ea == nil) != (eb == nil) || string(ja) != string(jb) {
+			r.Fail(key, map[string]any{"class": "For[T] and ForType disagree", "for": string(ja), "fortype": string(jb), "errors": fmt.Sprint(ea, " / ", eb)})
+		}
+		d, ed := jsonschema.ForType(reflect.TypeFor[T](), nil)
+		jc, _ := json.Marshal(c)
+		jd, _ := json.Marshal(d)
+		if (ec == nil) != (ed == nil) || string(jc) != string(jd) {
+			r.Fail(key+" [then nil options]", map[string]any{"class": "options of an earlier call linger", "for_nil": string(jc), "fortype_nil": string(jd)})
+		}
+	}
+}
+
+func genericAgree(r *ev.Run) {
+	opts := options()
+	genericOne[gen.Twice](r, "gen.Twice", opts)
+	genericOne[gen.Inner](r, "gen.Inner", opts)
+	genericOne[*gen.Inner](r, "*gen.Inner", opts)
+	genericOne[[]gen.EmbVal](r, "[]gen.EmbVal", opts)
+	genericOne[map[string]*gen.EmbPtr](r, "map[string]*gen.EmbPtr", opts)
+	genericOne[gen.Marsh](r, "gen.Marsh", opts)
+	genericOne[gen.TopOver](r, "gen.TopOver", opts)
+	genericOne[gen.RecPtr](r, "gen.RecPtr", opts)
+	genericOne[gen.BadTagged](r, "gen.BadTagged", opts)
+	genericOne[gen.BadFunc](r, "gen.BadFunc", opts)
+	genericOne[gen.Ptrs](r, "gen.Ptrs", opts)
+	genericOne[int](r, "int", opts)
+	genericOne[time.Time](r, "time.Time", opts)
+	genericOne[any](r, "any", opts)
 }
 
 func lastLine(s string) string {
